@@ -184,6 +184,17 @@ def fam_linkout():
     return Family("linkout", v, ["s1", "s2"], ["o1", "o2"], ["all", "mid"], quick=True)
 
 
+def fam_prodtree():
+    # a command owns the directory `t1` under a PLAIN node name; another command takes the directory tree `t1/`:
+    # the only link between the two nodes is the listing rule's request for the node of the directory itself
+    D = {"x-dir-out": ["t1"]}
+    b = Desc("base", [Cmd("C1", ["s1"], ["t1"], attrs=D), Cmd("C2", ["t1/"], ["o2"])], {"all": ["o2", "t1"], "use": ["o2"]})
+    sw = b.copy("tree-first")
+    sw.targets = {"all": ["t1", "o2"], "use": ["o2"]}
+    v = [b, sw, retag(b, "tag-C1", "C1")]
+    return Family("prodtree", v, ["s1"], ["o2"], ["all", "use"], quick=True)
+
+
 def fam_chain3():
     b = Desc("base", [Cmd("C1", ["s1"], ["o1"]), Cmd("C2", ["o1"], ["o2"]), Cmd("C3", ["o2", "s2"], ["o3"])],
              {"all": ["o3"], "mid": ["o2"]})
@@ -331,7 +342,7 @@ def fam_default():
 
 def all_families():
     fs = [fam_chain(), fam_diamond(), fam_multi(), fam_virt(), fam_dir(), fam_tools(), fam_typedir(),
-          fam_isdir(), fam_aood(), fam_allowmissing(), fam_deps(), fam_deps2(), fam_linkout(), fam_chain3(), fam_fanin(), fam_fanout(),
+          fam_isdir(), fam_aood(), fam_allowmissing(), fam_deps(), fam_deps2(), fam_linkout(), fam_prodtree(), fam_chain3(), fam_fanin(), fam_fanout(),
           fam_phonyfile(), fam_dirchain(), fam_dirmulti(), fam_srcdir2(), fam_mkdirs(), fam_links(),
           fam_twoprod(), fam_selfgen(), fam_nodetype(), fam_virtchain(), fam_multi3(), fam_modout(), fam_default()]
     return fs
